@@ -9,6 +9,7 @@ from hypothesis import strategies as st
 
 from .. import arr as A
 from .. import unit as U
+from .. import modelslice as MS
 from ..core import sstr, Failure, drive
 from ..gen import arrays as G
 from ..ref import commands as R
@@ -288,9 +289,16 @@ def check_csv(case, rec):
     return fails
 
 
-PARTS = {"unit": check_unit, "csv": check_csv}
+def check_model(model, rec):
+    """Whole models: after Program.run every result is missing exactly where the reference says -- a command that
+    damages the mask of an input it shares with other commands shows up here, not in the one-command parts."""
+    return MS.model_failures(model, rec, lambda sig, cmd: sig.endswith("|mask_lost") or sig.endswith("|mask_extra"), "model")
+
+
+PARTS = {"unit": check_unit, "csv": check_csv, "model": check_model}
 
 
 def run_shard(ctx, rec):
+    drive(ctx, rec, "model", MS.model_cases(), check_model, ctx.n(2000, 40000))
     drive(ctx, rec, "unit", payload_case(), check_unit, ctx.n(6000, 150000))
     drive(ctx, rec, "csv", csv_case(), check_csv, ctx.n(500, 6000))
